@@ -12,8 +12,10 @@ Fixpoint objs (D : denv) (v : pval) {struct v} : list pval :=
        | PDict _ _ _ l => kt_objs D l ++ flat_map (fun kv => objs D (snd kv)) l
        | PDefDict _ _ _ f l => kt_objs D l ++ objs D f ++ flat_map (fun kv => objs D (snd kv)) l
        | POpFunc _ _ a => objs D a
-       | PObjArr _ _ _ _ l =>      (* len(obj), if it is a cached small int: it is met again below get_state(obj.shape) *)
-           (if is_small_int (Z.of_nat (length l)) then [PScalar (small_int_base + Z.of_nat (length l)) (SInt (Z.of_nat (length l)))] else [])
+       | PObjArr _ _ _ sh l =>     (* the axis lengths that are cached small ints, the empty tuple for shape (): they are met again
+                                      below get_state(obj.shape) *)
+           flat_map (fun d => if is_small_int d then [PScalar (small_int_base + d) (SInt d)] else []) sh
+           ++ match sh with [] => [empty_tuple_val] | _ => [] end
            ++ flat_map (fun x => objs D x) l
        | PMasked _ _ _ d k => objs D d ++ objs D k
        | PRandState _ _ _ x => objs D x
@@ -70,10 +72,10 @@ Fixpoint fragb (F : cfacts) (D : denv) (v : pval) {struct v} : bool :=
   | PFunc _ mo c | PType _ mo c => resolvable F mo c
   | POpFunc _ c a => resolvable F (s "operator") c && opfunc_okb c a && fragb F D a
   | PArr _ gen mo c _ => arr_clsb F gen mo c
-  | PObjArr _ mo c shape cells =>      (* rank 1 *)
+  | PObjArr _ mo c shape cells =>      (* every rank (0 included), zero-length axes included; cells anywhere in the fragment *)
       pstr_eqb mo (s "numpy") && pstr_eqb c (s "ndarray")
-      && match shape with [d] => Z.eqb d (Z.of_nat (length cells)) | _ => false end
-      && scalar_rt_ok (SInt (Z.of_nat (length cells)))
+      && shape_okb shape (length cells)
+      && forallb (fun d => scalar_rt_ok (SInt d)) shape
       && forallb (fun x => fragb F D x) cells
   | PSparse _ _ _ _ | PDType _ _ => true
   | PMasked _ mo c d k => pstr_eqb mo (s "numpy.ma") && pstr_eqb c (s "MaskedArray") && fragb F D d && fragb F D k
@@ -155,12 +157,16 @@ Section Pack.
       + apply IHl; [exact Hr|intros y Hy; apply Hall; right; exact Hy|]. intros y Hy. apply Hi'. cbn [flat_map]. apply in_or_app. right. exact Hy.
     - intros id mo c sh l IH Hf Hi. cbn [fragb] in Hf. apply andb_prop in Hf. destruct Hf as [Hf Hall]. apply andb_prop in Hf. destruct Hf as [Hf Hrt].
       apply andb_prop in Hf. destruct Hf as [Hf Hsh]. apply andb_prop in Hf. destruct Hf as [Hmo Hc].
-      apply pstr_eqb_eq in Hmo, Hc. subst. destruct sh as [|d [|? ?]]; try discriminate Hsh. apply Z.eqb_eq in Hsh. subst d.
+      apply pstr_eqb_eq in Hmo, Hc. subst.
       cbn [vok]. split; [unfold Objs; apply Hi; cbn [objs]; left; reflexivity|]. cbn [objs] in Hi.
-      split; [reflexivity|]. split; [reflexivity|]. split; [reflexivity|]. split; [exact Hrt|].
-      split; [intros Hsm; unfold Objs; apply Hi; right; rewrite Hsm; left; reflexivity|].
-      assert (Hi' : incl (flat_map (fun x => objs D x) l) U) by (intros y Hy; apply Hi; right; apply in_or_app; right; exact Hy).
-      clear Hi Hrt. rewrite forallb_forall in Hall. induction l as [|x l IHl]; [exact I|]. inversion IH as [|? ? Hx Hr]; subst. split.
+      split; [reflexivity|]. split; [reflexivity|]. split; [exact Hsh|].
+      split; [rewrite forallb_forall in Hrt; apply Forall_forall; exact Hrt|].
+      split.
+      { intros d Hd Hsm. unfold Objs. apply Hi. right. apply in_or_app. left. apply in_flat_map. exists d. split; [exact Hd|]. rewrite Hsm. left. reflexivity. }
+      split.
+      { intros ->. unfold Objs. apply Hi. right. cbn [flat_map app]. left. reflexivity. }
+      assert (Hi' : incl (flat_map (fun x => objs D x) l) U) by (intros y Hy; apply Hi; right; apply in_or_app; right; apply in_or_app; right; exact Hy).
+      clear Hi Hrt Hsh. rewrite forallb_forall in Hall. induction l as [|x l IHl]; [exact I|]. inversion IH as [|? ? Hx Hr]; subst. split.
       + apply Hx; [apply Hall; left; reflexivity|]. apply (incl_flat (fun x => objs D x) (x :: l) x (or_introl eq_refl) Hi').
       + apply IHl; [exact Hr|intros y Hy; apply Hall; right; exact Hy|]. intros y Hy. apply Hi'. cbn [flat_map]. apply in_or_app. right. exact Hy.
     - intros id mo c d k IHd IHk Hf Hi. cbn [fragb] in Hf. apply andb_prop in Hf. destruct Hf as [Hf Hfk]. apply andb_prop in Hf. destruct Hf as [Hf Hfd].
